@@ -1,5 +1,6 @@
 """C15 SQL filters select exactly the intended rows; values are always bound."""
 import logging
+import random
 import re
 import sqlite3
 
@@ -323,10 +324,14 @@ def run_case(ctx, rng):
     if debug:
         ctx.count("queries_with_debug_logging")
     db = sqlite3.connect(":memory:")
-    db.execute("CREATE TABLE t (id INTEGER PRIMARY KEY, n INTEGER, s TEXT, _d INTEGER)")
+    # (id is an ordinary column and the rows are stored in another order: a statement that lost its ORDER BY
+    # does not give the requested order by accident)
+    db.execute("CREATE TABLE t (id INTEGER, n INTEGER, s TEXT, _d INTEGER)")
     rows = [{'id': i, 'n': rng.choice(INTS), 's': rng.choice(STRS), '_d': rng.choice([0, 0, 1, None])}
             for i in range(rng.randint(0, 12))]
-    db.executemany("INSERT INTO t VALUES (:id, :n, :s, :_d)", rows)
+    stored = list(rows)
+    random.Random(len(rows) * 7 + sum(r['n'] or 0 for r in rows)).shuffle(stored)
+    db.executemany("INSERT INTO t VALUES (:id, :n, :s, :_d)", stored)
     percent_s = rng.random() < 0.2
     conn = (MysqlLikeConn if percent_s else Conn)(db)
     conds = [gen_cond(rng) for _ in range(rng.choice([0, 1, 1, 2, 2, 3, 4]))]
@@ -357,7 +362,8 @@ def run_case(ctx, rng):
     mode = rng.choice(["list", "list", "all", "one", "one_or_none", "scalars", "group", "table", "count"])
     if mode == "table" and SqlMethodT is None:
         mode = "list"
-    case = {"rows": rows, "conds": all_conds, "order": order, "mode": mode, "percent_s": percent_s}
+    case = {"rows": rows, "stored_order": [r['id'] for r in stored], "conds": all_conds, "order": order, "mode": mode,
+            "percent_s": percent_s}
     exp = [r['id'] for r in rows if AND(ev(c, r) for c in all_conds) is True]
     if order == "id DESC":
         exp.reverse()
@@ -520,8 +526,10 @@ def replay(ctx, case):
     # replays re-run the recorded conditions on the recorded rows through `list`
     ctx.evaluated()
     db = sqlite3.connect(":memory:")
-    db.execute("CREATE TABLE t (id INTEGER PRIMARY KEY, n INTEGER, s TEXT)")
-    db.executemany("INSERT INTO t VALUES (:id, :n, :s)", case["rows"])
+    db.execute("CREATE TABLE t (id INTEGER, n INTEGER, s TEXT)")
+    by_id = {r['id']: r for r in case["rows"]}
+    db.executemany("INSERT INTO t VALUES (:id, :n, :s)",
+                   [by_id[i] for i in case.get("stored_order", sorted(by_id))])
     conn = (MysqlLikeConn if case.get("percent_s") else Conn)(db)
     import random
     rng = random.Random(0)
